@@ -23,7 +23,8 @@ type inputRec struct {
 	Name string `json:"name"`
 	Kind string `json:"kind"` // byte, bool, int, choice
 	term *Term
-	Val  int64 `json:"v"`
+	Val  int64  `json:"v"`
+	Str  string `json:"s,omitempty"`
 }
 
 type pathExec struct {
@@ -72,6 +73,8 @@ type pathResult struct {
 	nsym    int
 	steps   int64
 	tainted bool
+	wall    float64
+	first   string
 }
 
 type Harness struct {
@@ -104,25 +107,27 @@ type workItem struct {
 }
 
 type Explorer struct {
-	sh        *Shared
-	workers   []*Worker
-	mu        sync.Mutex
-	cond      *sync.Cond
-	queue     []workItem
-	active    int
-	stop      bool
-	res       *HarnessResult
-	h         *Harness
-	deadline  time.Time
-	pathCount int
-	funcs     map[*ssa.Function]struct{}
-	mapRanges map[string]int
+	sh          *Shared
+	workers     []*Worker
+	mu          sync.Mutex
+	cond        *sync.Cond
+	queue       []workItem
+	active      int
+	stop        bool
+	res         *HarnessResult
+	h           *Harness
+	deadline    time.Time
+	pathCount   int
+	funcs       map[*ssa.Function]struct{}
+	mapRanges   map[string]int
+	pathTimeout time.Duration
 }
 
 type Worker struct {
 	id            int
 	in            *Interp
 	solver        *Solver
+	xsolver       *Solver
 	ex            *Explorer
 	domDecisions  int
 	crossEvery    int
@@ -194,13 +199,18 @@ func (i *Interp) decide(c *Term, fr *frame, what string) bool {
 		ex.taken = append(ex.taken, dec{v: 0, forced: true})
 		return false
 	}
+	if v1 == Unknown {
+		panic(pathEnd{kind: "undecided", msg: "branch condition undecided by z3 5.1, z3 4.8 and cvc5 at " + fr.fi.name + ": " + c.String()})
+	}
 	v0, _ := s.Check(nc, nil)
 	if v0 == Unsat {
 		ex.taken = append(ex.taken, dec{v: 1, forced: true})
 		return true
 	}
 	if v1 == Unknown || v0 == Unknown {
-		ex.tainted = true
+		// the solvers could not decide this branch within their limits: give up
+		// on the path (reported as undecided, never as a pass)
+		panic(pathEnd{kind: "undecided", msg: "branch condition undecided by z3 5.1, z3 4.8 and cvc5 at " + fr.fi.name + ": " + c.String()})
 	}
 	// both feasible: follow true, queue false
 	alt := make([]dec, pos+1)
@@ -220,14 +230,53 @@ func (i *Interp) crossCheck(c *Term, canTrue, canFalse bool) {
 	if w.domDecisions%w.crossEvery != 0 {
 		return
 	}
+	vi := i.ex.vinfo[c.sv]
+	if vi == nil {
+		return
+	}
+	// the claim under test: over the current domain of c's only variable the
+	// condition can / cannot be true / false.  It is re-decided by the SMT
+	// solver on a second process, against an explicit encoding of the domain
+	// (independent of the path condition, so the query stays cheap).
 	w.crossChecked++
-	v1, _ := w.solver.Check(c, nil)
-	v0, _ := w.solver.Check(i.ts.Not(c), nil)
+	dom := i.domTerm(c.sv, vi)
+	v1 := w.xsolver.CheckStandalone(dom, c)
+	v0 := w.xsolver.CheckStandalone(dom, i.ts.Not(c))
 	ok := (v1 == Unknown || (v1 == Sat) == canTrue) && (v0 == Unknown || (v0 == Sat) == canFalse)
 	if !ok {
 		w.crossMismatch++
 		panic(unsupported{"domain pass and SMT solver disagree on " + c.String()})
 	}
+}
+
+// domTerm encodes membership of v in its current domain.
+func (i *Interp) domTerm(v *Term, vi *varInfo) *Term {
+	ts := i.ts
+	res := ts.ff
+	n := len(vi.vals)
+	for k := 0; k < n; {
+		if vi.dom[k>>6]&(1<<(uint(k)&63)) == 0 {
+			k++
+			continue
+		}
+		j := k
+		for j+1 < n && vi.dom[(j+1)>>6]&(1<<(uint(j+1)&63)) != 0 && vi.vals[j+1] == vi.vals[j]+1 {
+			j++
+		}
+		var in *Term
+		if v.w == 0 {
+			in = ts.Eq(v, ts.Bool(vi.vals[k] == 1))
+			j = k
+		} else if j == k {
+			in = ts.Eq(v, ts.BV(vi.vals[k], v.w))
+		} else {
+			// consecutive candidate values (as two's complement): v - lo <= hi - lo
+			in = ts.Cmp(OpULE, ts.Bin(OpSub, v, ts.BV(vi.vals[k], v.w)), ts.BV(vi.vals[j]-vi.vals[k], v.w))
+		}
+		res = ts.Or(res, in)
+		k = j + 1
+	}
+	return res
 }
 
 // truth is decide for a value that may be a concrete bool.
@@ -267,10 +316,7 @@ func (i *Interp) concretize(t *Term, lo, hi int, fr *frame) int {
 			}
 		}
 		sort.Ints(feas)
-		if len(feas) > 64 {
-			panic(unsupported{"concretize: more than 64 feasible values for " + t.String() + " at " + fr.fi.name})
-		}
-	} else if hi-lo <= 16 {
+	} else if hi-lo >= 0 && hi-lo <= 16 {
 		for k := lo; k <= hi; k++ {
 			v, _ := s.Check(eq(k), nil)
 			if v != Unsat {
@@ -283,7 +329,7 @@ func (i *Interp) concretize(t *Term, lo, hi int, fr *frame) int {
 	} else {
 		// model-guided enumeration
 		excl := i.ts.tt
-		for len(feas) <= 64 {
+		for len(feas) <= 256 {
 			v, m := s.Check(excl, []*Term{t})
 			if v == Unsat {
 				break
@@ -304,8 +350,8 @@ func (i *Interp) concretize(t *Term, lo, hi int, fr *frame) int {
 			feas = append(feas, k)
 			excl = i.ts.And(excl, i.ts.Not(eq(k)))
 		}
-		if len(feas) > 64 {
-			panic(unsupported{"concretize: more than 64 feasible values for " + t.String() + " at " + fr.fi.name})
+		if len(feas) > 256 {
+			panic(unsupported{"concretize: more than 256 feasible values for " + t.String() + " at " + fr.fi.name})
 		}
 		sort.Ints(feas)
 	}
@@ -478,10 +524,17 @@ func (w *Worker) runPath(h *Harness, prefix []dec) (res pathResult) {
 	i.clock = 0
 	i.uuidSeq = 0
 	i.tr.on = true
+	i.pathDeadline = time.Now().Add(w.ex.pathTimeout)
 	w.solver.BeginPath()
 	defer func() {
 		r := recover()
 		res.covers = ex.covers
+		res.wall = time.Since(i.pathDeadline.Add(-w.ex.pathTimeout)).Seconds()
+		for k, in := range ex.inputs {
+			if k < 3 {
+				res.first += fmt.Sprintf("%s=%d%s ", in.Name, in.Val, in.Str)
+			}
+		}
 		res.notes = ex.notes
 		res.nsym = ex.nsym
 		res.steps = i.steps
@@ -681,7 +734,11 @@ func renderInputs(in []inputRec) []string {
 			out = append(out, fmt.Sprintf("%s=%q", name, bs))
 			continue
 		}
-		out = append(out, fmt.Sprintf("%s=%d", in[k].Name, in[k].Val))
+		if in[k].Kind == "choiceof" {
+			out = append(out, fmt.Sprintf("%s=%s", in[k].Name, in[k].Str))
+		} else {
+			out = append(out, fmt.Sprintf("%s=%d", in[k].Name, in[k].Val))
+		}
 		k++
 	}
 	return out
@@ -709,7 +766,7 @@ func (e *Explorer) Explore(h *Harness, timeout time.Duration) *HarnessResult {
 				}
 				r := w.runPath(h, it.prefix)
 				if os.Getenv("GOSYM_VERBOSE") != "" {
-					fmt.Fprintf(os.Stderr, "[w%d] path %s %s (decisions %d, steps %d)\n", w.id, r.kind, r.msg, r.nsym, r.steps)
+					fmt.Fprintf(os.Stderr, "[w%d] path %s %s (decisions %d, steps %d, %.3fs) %s\n", w.id, r.kind, r.msg, r.nsym, r.steps, r.wall, r.first)
 				}
 				e.done(r)
 			}
